@@ -533,6 +533,10 @@ def run(pid, tier, seed, only_case=None):
         # the same request reached along two histories, for every function of the shells: first use after a parameter update
         # and renormalisation, and the same with an earlier use of the function on the old parameters (memo tables keyed by
         # object identity or by part of the parameters answer the second from the first)
+        # every rejected request followed by every valid one (a rejected update that already stored something shows in the
+        # next use of the object), once for the whole list
+        behaviours.append([x for f in RAISES for x in (["raise", f], ["call", "overlap"], ["call", "inst_kinetic"])]
+                          + [["call", f] for f in allf if f not in RAISES])
         for s_ in SHELLS:
             users = [f for f in allf if f not in RAISES and s_ in FUNCS[f]]
             upd = [["mutate", s_, 2], ["assign_norm", s_]]
